@@ -37,6 +37,10 @@ func classify(data []byte, steps []plan.Step, need int) string {
 			switch {
 			case before >= need:
 				return "must-succeed" // error only after everything needed was delivered
+			case before+n >= need && st.E == "eof":
+				// the source ENDS exactly with the last byte needed: it did not end before 4n/3
+				// bytes were delivered, so the first clause applies (io.ReadFull succeeds here)
+				return "must-succeed"
 			case before+n >= need:
 				return "either" // the erroring read completes the delivery
 			default:
@@ -122,7 +126,7 @@ func stepsOf(sizes []int) []plan.Step {
 // failureKinds are the errors a scripted source can report. After reporting one it
 // keeps reporting it: a consumer that retries cannot obtain further bytes, so any
 // mnemonic it returns is built from a partially filled buffer.
-var failureKinds = []string{"eof", "ueof", "custom", "eintr", "eagain", "patherr", "temporary", "timeout", "deadline", "noprogress", "shortbuffer", "closedpipe", "wrappedeof"}
+var failureKinds = []string{"eof", "ueof", "custom", "eintr", "eagain", "patherr", "temporary", "timeout", "deadline", "noprogress", "shortbuffer", "closedpipe", "wrappedeof", "enoent", "enosys"}
 
 func checkC06(e *Env) {
 	drv := e.BuildDrv(false)
@@ -451,7 +455,7 @@ func checkC06(e *Env) {
 		"calls_inside_histories": histCalls,
 		"concurrent_calls_on_one_shared_source_judged_by_their_own_goroutine's_reads": concCalls,
 		"calls_on_a_source_that_fails_transiently_and_stays_installed":                transientCalls,
-		"rule":                          "a case is a scripted randomness source (bytes, per-read delivery sizes, failure point, failure kind, error alone or alongside the last bytes) x word count x language; enumerated: every failure point k in 0..4n/3-1 for n in {12,15,18,21,24} x 13 failure kinds (io.EOF, io.ErrUnexpectedEOF, a custom error, EINTR, EAGAIN, *os.PathError, Temporary()/Timeout() errors, os.ErrDeadlineExceeded, io.ErrNoProgress, io.ErrShortBuffer, io.ErrClosedPipe, wrapped EOF; sticky: the source keeps failing) x {alone, alongside} plus plain end of data, each under several fragmentations (one read, 1-byte reads, halves, (k-1)+1, 1+(k-1), zero-length reads interleaved, seeded random compositions); stalls (k bytes, then 64..1000 consecutive (0, nil) reads, then the remaining bytes: polling on or giving up with an error are both admitted, a mnemonic of the partly filled buffer is not); successes under the same fragmentations incl. zero-leading data, and with a garbage collection (finalizers included) completing between the fragments; histories over one source that stays installed, fails transiently and works again; goroutines calling at the same time on one shared source, each call judged by the reads its own goroutine made; all cases non-trivial (the result is compared with the reference encoding of the delivered prefix, or must be (\"\", non-nil error)); distinct by (data, script, n, language)",
+		"rule":                          "a case is a scripted randomness source (bytes, per-read delivery sizes, failure point, failure kind, error alone or alongside the last bytes) x word count x language; enumerated: every failure point k in 0..4n/3-1 for n in {12,15,18,21,24} x 15 failure kinds (io.EOF, io.ErrUnexpectedEOF, a custom error, EINTR, EAGAIN, *os.PathError, a missing /dev/urandom (fs.ErrNotExist), ENOSYS (errors.ErrUnsupported), Temporary()/Timeout() errors, os.ErrDeadlineExceeded, io.ErrNoProgress, io.ErrShortBuffer, io.ErrClosedPipe, wrapped EOF; sticky: the source keeps failing) x {alone, alongside} plus plain end of data, each under several fragmentations (one read, 1-byte reads, halves, (k-1)+1, 1+(k-1), zero-length reads interleaved, seeded random compositions); stalls (k bytes, then 64..1000 consecutive (0, nil) reads, then the remaining bytes: polling on or giving up with an error are both admitted, a mnemonic of the partly filled buffer is not); successes under the same fragmentations incl. zero-leading data, and with a garbage collection (finalizers included) completing between the fragments; histories over one source that stays installed, fails transiently and works again; goroutines calling at the same time on one shared source, each call judged by the reads its own goroutine made; all cases non-trivial (the result is compared with the reference encoding of the delivered prefix, or must be (\"\", non-nil error)); distinct by (data, script, n, language)",
 		"samples":                       smp.List(),
 		"failure_matrix_cells_covered":  matrix.Len(),
 		"failure_matrix_cells_possible": wantMatrix,
